@@ -1,7 +1,7 @@
 SPECIFICATION Spec
 CONSTANTS
   Deviations <- AllDevs
-  Ranks <- R23
+  Ranks <- R234
   Big = FALSE
 INVARIANT ImplInv
 INVARIANT NoSpuriousBlame
